@@ -3449,6 +3449,8 @@ func FormatDuration(d time.Duration) string {
 		return fmt.Sprintf("%ds", d/time.Second)
 	} else if d%time.Millisecond == 0 {
 		return fmt.Sprintf("%dms", d/time.Millisecond)
+	} else if d%time.Microsecond != 0 {
+		return fmt.Sprintf("%dns", d/time.Nanosecond)
 	}
 	// Although we accept both "u" and "µ" when reading microsecond durations,
 	// we output with "u", which can be represented in 1 byte,
